@@ -230,13 +230,18 @@ class Interp:
 
     def fin(self, v, key=False):
         if isinstance(v, (tuple, Lazy)):
-            if key:
+            items = [self.fin(x) for x in v]          # (a lazy key is consumed - and may raise - before the list it
+            if key:                                   # becomes turns out to be no dictionary key)
                 raise TypeError('unhashable list')
-            return [self.fin(x) for x in v]
+            return items
         if isinstance(v, FD):
             if key:
                 raise TypeError('unhashable dict')
-            return {self.fin(k, True): self.fin(x) for k, x in v.d.items()}
+            out = {}
+            for k, x in v.d.items():
+                val = self.fin(x)           # `result[rec(key)] = rec(value)`: the value is converted first
+                out[self.fin(k, True)] = val
+            return out
         if isinstance(v, Ctx):
             raise OOD('context inside data')
         return v
@@ -407,7 +412,7 @@ class Interp:
 
     def hashable(self, k):
         if isinstance(k, Lazy):
-            raise TypeError('unhashable')
+            return                      # an iterator object is hashed by identity (finalising it as a KEY fails later)
         if isinstance(k, tuple):
             for x in k:
                 self.hashable(x)
